@@ -640,6 +640,12 @@ class EnumUnmarshaller(CastUnmarshaller[EnumT], tp.Generic[EnumT]):
         # member may parse as JSON or a literal and would no longer match its own value.
         if isinstance(val, self.t):
             return val
+        # Members travel by value. Look the text itself up first: the value of a
+        # str-mixin member may read as JSON or a literal ("1"), which is not the int 1.
+        decoded = serdes.decode(val)
+        if isinstance(decoded, str):
+            with contextlib.suppress(ValueError, TypeError):
+                return self.t(decoded)
         return super().__call__(val)
 
 
